@@ -3176,3 +3176,36 @@ pub(crate) fn verif_predict(
         _ => predict_dcpred(a, size, stride, above, left),
     }
 }
+
+/// `read_coefficients` called repeatedly on one boolean-coded partition (`data`) with the token
+/// probabilities of `plane` set from `probs` (8 bands x 3 contexts x 11 probabilities): for every
+/// `(complexity, dcq, acq)` the result and the block it filled.
+#[cfg(image_webp_verif)]
+pub(crate) fn verif_read_coefficients(
+    data: &[u8],
+    probs: &[u8],
+    plane: usize,
+    calls: &[(usize, i16, i16)],
+) -> Vec<Result<(bool, [i32; 16]), DecodingError>> {
+    let mut d = Vp8Decoder::new(std::io::empty());
+    let mut buf = vec![[0u8; 4]; data.len().div_ceil(4)];
+    buf.as_mut_slice().as_flattened_mut()[..data.len()].copy_from_slice(data);
+    if let Err(e) = d.partitions[0].init(buf, data.len()) {
+        return vec![Err(e)];
+    }
+    for band in 0..8 {
+        for ctx in 0..3 {
+            for t in 0..NUM_DCT_TOKENS - 1 {
+                d.token_probs[plane][band][ctx][t].prob = probs[(band * 3 + ctx) * (NUM_DCT_TOKENS - 1) + t];
+            }
+        }
+    }
+    calls
+        .iter()
+        .map(|&(complexity, dcq, acq)| {
+            let mut block = [0i32; 16];
+            d.read_coefficients(&mut block, 0, plane, complexity, dcq, acq)
+                .map(|has| (has, block))
+        })
+        .collect()
+}
